@@ -70,7 +70,7 @@ def run_one(item):
         results = []
         ok_all = True
         for pid in props:
-            env = dict(os.environ, SPECTRA_REPO=tmp, VERIF_ALT_OUT=os.path.join(tmp, 'out'))
+            env = dict(os.environ, SPECTRA_REPO=tmp, VERIF_ALT_OUT=os.path.join(tmp, 'out'), VERIF_CACHE_DIR=os.path.join(tmp, 'cache'))
             r = subprocess.run([os.path.join(V, 'check'), pid, '--tier', 'quick'], cwd=V, env=env,
                                stdout=subprocess.PIPE, stderr=subprocess.STDOUT, text=True)
             rules = re.findall(r'rule (\S+), instance', r.stdout)
@@ -139,7 +139,6 @@ def main():
         for name, ok, msg in ex.map(run_one, todo):
             print('%s %-44s %s' % ('ok  ' if ok else 'FAIL', name, msg))
             bad += 0 if ok else 1
-    shutil.rmtree(os.path.join(V, '.cache', 'alt'), ignore_errors=True)
     print('%d mutant(s), %d not detected as expected' % (len(todo), bad))
     return 1 if bad else 0
 
